@@ -204,3 +204,44 @@ def run(ctx, args):
         assumptions=["defined failures: ZeroDivisionError raised at a division/modulo instruction; IndexError raised at an array/vector/matrix access instruction",
                      "a run that exceeds the step budget is not judged"],
         extra={"outcome_counts": counts, "accepted_compilations": accepted})
+
+
+def selftest(ctx, args):
+    """Negative controls for the Pipeline trace binding: real traces of a few accepted programs conform; the same traces with a
+    required pass removed, a pass reported as failed but a module returned, a run outcome turned into an internal error, or the
+    hook silent are rejected at the manipulated event."""
+    import copy
+    srcs = [("s1", "export function f(int a, int b) -> int\n{\n  int c = a * 3 + b;\n  return c - a / 2;\n}\n"),
+            ("s2", "int g;\nexport function f(int n) -> int\n{\n  for (int i = 0; i < n; ++i)\n  {\n    g += i;\n  }\n  return g;\n}\n")]
+    recs = work(srcs)
+    traces = []
+    expect = {}
+    for r in recs:
+        ev = r["events"]
+        traces.append({"id": r["id"] + "|original", "events": ev})
+        expect[r["id"] + "|original"] = None
+        k = next(i for i, e in enumerate(ev) if e["e"] == "pass" and e["name"] == "ComputeTypesPass")
+        traces.append({"id": r["id"] + "|required-pass-removed", "events": ev[:k] + ev[k + 1:]})
+        e2 = copy.deepcopy(ev)
+        e2[k]["r"] = "fail"
+        traces.append({"id": r["id"] + "|failed-pass-but-module", "events": e2})
+        e3 = copy.deepcopy(ev)
+        j = next(i for i, e in enumerate(e3) if e["e"] == "run")
+        e3[j]["r"] = "internal"
+        e3[j]["what"] = "KeyError in VM.py:__Execute at LOAD"
+        traces.append({"id": r["id"] + "|run-internal-error", "events": e3})
+        traces.append({"id": r["id"] + "|hook-silent", "events": [e for e in ev if e["e"] not in ("pass", "stage")]})
+    path = ctx.tmp("pipeline-selftest.json")
+    path.write_text(json.dumps(traces))
+    rr = ctx.tlc("Pipeline", "INIT Init\nNEXT Next\nINVARIANT Report\nPROPERTY RejectedIsFinal\nCHECK_DEADLOCK FALSE\n", env={"BATCH": str(path)}, timeout=600)
+    bad = 0
+    summary = {}
+    for v in rr.records:
+        name = v["id"].split("|")[1]
+        ok = (v["verdict"] == "conforms") == (name == "original")
+        summary[name + (":ok" if ok else ":WRONG")] = summary.get(name + (":ok" if ok else ":WRONG"), 0) + 1
+        if not ok:
+            bad += 1
+            print(f"SELFTEST-FAILED {v['id']}: verdict {v['verdict']}")
+    print("selftest C05 (Pipeline trace binding):", json.dumps(summary, sort_keys=True))
+    return 0 if bad == 0 and len(rr.records) == len(traces) else 2
